@@ -75,7 +75,7 @@ def disabled_builtin(name):
 
 # TODO: This needs to be a field in the Sandbox object's data
 _OPEN_FORBIDDEN_NAMES = re.compile(r"(^[./])|(\.py$)")
-_OPEN_FORBIDDEN_MODES = re.compile(r"[wa+]")
+_OPEN_FORBIDDEN_MODES = re.compile(r"[wax+]")
 
 # TODO: Allow the user to give a function instead of a REGEX
 # TODO: We need to mock the whole OS library, honestly, not just `open`
